@@ -128,6 +128,41 @@ Theorem C08_format_seq_independent : forall l k f ops, nth_error l k = Some (f, 
 Proof. exact format_seq_independent. Qed.
 Print Assumptions C08_format_seq_independent.
 
+(* operator<< to the caller's stream is all or nothing: when str() raises (wrong number of arguments) the
+   stream is exactly as it was — nothing appended, a pending width still pending *)
+Theorem C08_stream_out_raise_unchanged : forall o f e, str_of f = Raise e -> stream_out o f = (o, Some e).
+Proof. exact stream_out_raise_unchanged. Qed.
+Print Assumptions C08_stream_out_raise_unchanged.
+
+Theorem C08_stream_out_wrong_arity : forall o fmt ops,
+  length (flatten_ops ops) <> count_nonoverlapping ph fmt -> fst (stream_out o (apply_ops (mk fmt) ops)) = o.
+Proof. exact stream_out_wrong_arity. Qed.
+Print Assumptions C08_stream_out_wrong_arity.
+
+(* and otherwise the text is inserted as ONE item: padded as a whole to the pending width, which is then consumed *)
+Theorem C08_stream_out_ok : forall o f text, str_of f = Ok text ->
+  stream_out o f = (insert_str o text, None)
+  /\ content (insert_str o text) = content o ++ pad (width o) (fill o) (adjust_left o) text
+  /\ width (insert_str o text) = 0.
+Proof. exact stream_out_ok. Qed.
+Print Assumptions C08_stream_out_ok.
+
+Theorem C08_pad_length : forall w c left text, length (pad w c left text) = Nat.max w (length text).
+Proof. exact pad_length. Qed.
+Print Assumptions C08_pad_length.
+
+Theorem C08_pad_narrow : forall w c left text, w <= length text -> pad w c left text = text.
+Proof. exact pad_narrow. Qed.
+Print Assumptions C08_pad_narrow.
+
+(* what a stream holding `pre`, with pending width w / fill c / adjustment, contains after  os << chain  and a
+   sentinel item: the specification (split-based text as one padded item, or nothing but the padded sentinel) *)
+Theorem C08_stream_chain_spec : forall pre w c left fmt ops sentinel,
+  stream_chain {| content := pre; width := w; fill := c; adjust_left := left |} fmt ops sentinel
+  = spec_stream pre w c left fmt (map render (flatten_ops ops)) sentinel.
+Proof. exact stream_chain_spec. Qed.
+Print Assumptions C08_stream_chain_spec.
+
 (* the message of a raised exception is the concatenation of the rendered arguments.  The hypothesis
    is the scope of the model: make_string uses ONE stream for all arguments, so an argument that
    changes the stream's formatting state does influence the arguments after it (see FormatModel.v) *)
@@ -167,6 +202,12 @@ Example C08_ex_sticky : format_chain (B "{}{}|{}|{}|{}|{}|{}")
 Proof. reflexivity. Qed.
 Example C08_ex_sticky2 : format_chain (B "{} {} {} {}") [Args [AFixer 12; APadder (-7); AHalf (-2); ADbl 3]]
   = Ok (B "12.00 -7**** -1.5 3").
+Proof. reflexivity. Qed.
+Example C08_ex_stream_less : stream_chain {| content := B "pre:"; width := 6; fill := x2a; adjust_left := false |}
+    (B "a {} b {} c") [Pct (AInt 1)] (B "!") = (B "pre:*****!", false).
+Proof. reflexivity. Qed.
+Example C08_ex_stream_ok : stream_chain {| content := B "pre:"; width := 6; fill := x2a; adjust_left := true |}
+    (B "<{}>") [Pct (AInt 1)] (B "!") = (B "pre:<1>***!", true).
 Proof. reflexivity. Qed.
 Example C08_ex_print_dec : print_dec 0 = B "0" /\ print_dec (-9223372036854775808) = B "-9223372036854775808".
 Proof. split; reflexivity. Qed.
